@@ -8,7 +8,9 @@ FIX_COMMITS = ["d6ae502 (passive start-up cancellation: port/listener leak)",
                "238797d (MemoryPathIO r+b created missing files)",
                "eae4544 (MemoryPathIO.rename lost the source)",
                "826c080 (Windows-flavour base path escape via backslash segments)",
-               "b5dacba (STOR/APPE on the virtual root probed the parent of the base directory)"]
+               "b5dacba (STOR/APPE on the virtual root probed the parent of the base directory)",
+               "1ca8d1a (double quotes in directory names mangled by PWD / its parser)",
+               "4e53b5c (Client.upload ignored leading destination components for directories)"]
 
 ENV_NOTE = ("Trusted base: the environment model (vf/simloop.py: selector, TCP, clock, executor) and the harness-side "
             "oracles; the code explored is the unmodified aioftp imported from /repo/src. Bounds are stated in the "
@@ -137,6 +139,22 @@ CHECKS = [
              "reference password of the same length class; plus a literal-substring check.",
      "design_ref": "DESIGN.md §5 C20", "note": ENV_NOTE,
      "technique": "exhaustive input enumeration with a two-run non-interference comparison on a deterministic event loop"},
+    {"property_id": "C08", "level": "model_checking",
+     "text": "For every name of length 1..2 (thorough 3) over 13 protocol metacharacters / non-ASCII characters plus 24 "
+             "fixed names, at nesting depth 1 and 2, against a server with MLSD/MLST and one with the LIST fallback: one "
+             "session through the real client API (mkdir, cd+pwd, cd up, relative cd, upload, list, raw LIST, stat, "
+             "exists, download, rename away/back, recursive remove) with the backend tree, PWD, listings and bytes "
+             "compared after every step.",
+     "design_ref": "DESIGN.md §5 C08", "note": ENV_NOTE + " One open known finding (D10, leading whitespace through the ls-format parser).",
+     "technique": "bounded-exhaustive input enumeration through the real client and server on a deterministic event loop"},
+    {"property_id": "C09", "level": "model_checking",
+     "text": "Every source (all rooted trees with <= 4 nodes over names {a,b}: files with distinct contents incl. empty, "
+             "empty directories, same names at different levels; single files) x 5 destinations x write_into x remote "
+             "cwd x block size x server flavour for upload and download, plus recursive list from absolute/relative/"
+             "empty paths and recursive remove: whole-tree comparison against the documented placement rule, including "
+             "'nothing else changed'.",
+     "design_ref": "DESIGN.md §5 C09", "note": ENV_NOTE,
+     "technique": "bounded-exhaustive input enumeration (all small trees) through the real client and server"},
 ]
 
 _ALL = [f"C{i:02d}" for i in range(1, 21)]
